@@ -15,6 +15,7 @@ mod c20;
 mod c12;
 mod c12k;
 mod c13;
+mod c13k;
 mod c14;
 mod c15;
 mod c16;
